@@ -24,6 +24,8 @@ def run(ctx):
         "deadline expiry is a boolean parameter of the model (`expired`)",
         "generated timestamps are > 0; a stored CreateTime of exactly 0 ms is delivered as the zero time.Time: known finding D21 (corpus op fetchts)",
         "Safe o L: readMessageV1's loop never has to step from a v0/v1 message it skipped into a v2 batch (holds under the fetch contract, for pure v2 and pure v0/v1 layouts)",
+        "Env.ok: a first offset reported by the broker (ListOffsets, at initialize or after OffsetOutOfRange) is not above a record that is still stored, and first <= last (hypothesis of reader_end_to_end / reader_delivers / reader_api)",
+        "reader_delivers / reader_api: SetOffset with an absolute offset or FirstOffset (LastOffset: whatever the broker reports; covered by reader_end_to_end only); Close and the consumer-group mode are outside the statement",
     ]
     broken = []
     ok, log = ctx.extract("decoder", ["lean/KafkaVerif/Gen/DecoderFacts.lean"])
